@@ -50,6 +50,12 @@ def run_job(job):
             argv = [exe, "run", "--profile", job["profile"], "--seed", str(job.get("seed", 11)),
                     "--start", str(job.get("start", 0) + i * per), "--count", str(per)]
             procs.append(subprocess.Popen(argv, stdout=subprocess.PIPE, stderr=subprocess.DEVNULL, text=True))
+    elif job.get("runner"):
+        # vq-sync's own multi-process runner (one scenario+seed per process), from the scratch copy
+        tool = job["runner"]
+        argv = ["python3", os.path.join(H, "vq-sync", "run_sanitized.py"), "--tool", tool, "--seeds", f"11000..{11000 + job.get('seeds', 16)}",
+                "--scenarios", "all", "--jobs", "12", "--target-dir", T if tool == "native" else f"{T}-{tool}"] + job.get("extra", [])
+        procs.append(subprocess.Popen(argv, stdout=subprocess.PIPE, stderr=subprocess.DEVNULL, text=True))
     else:
         procs.append(subprocess.Popen([exe] + job["args"], stdout=subprocess.PIPE, stderr=subprocess.DEVNULL, text=True))
     return summaries(procs)
